@@ -15,6 +15,8 @@ LABELSETS = {
     "big": [-3, 10**12, 7, -100, 42, 1000, 5],
     "str": ["u", "v", "w", "xx", "y", "zed", "k9"],
     "numstr": ["1", "2", "10", "9", "03", "21", "100"],  # strings that sort differently from the numbers they spell
+    # distinct integers with colliding hashes: hash(-1) == hash(-2), hash(2**61 - 1) == hash(0), hash(2**61) == hash(1)
+    "hashy": [-1, -2, 0, 2**61 - 1, 1, 2**61, 3],
     "range16": list(range(16)),
     "str16": ["n%02d" % i for i in range(8)] + ["m%d" % i for i in range(8, 16)],
 }
@@ -110,6 +112,53 @@ class Gen:
     def keys(self, model):
         return sorted(model.edges, key=model.cedge)
 
+    def related_frag(self, model):
+        """A hyperedge that stands in a particular relation to one that exists: the same nodes split differently into
+        source and target (directed), a subset or superset by one node, the same nodes at another time / in another
+        layer.  Returns (fragment, weight of the original) or (None, None)."""
+        r = self.rng
+        ks = self.keys(model)
+        if not ks:
+            return None, None
+        key = r.choice(ks)
+        w0 = model.edges[key][0]
+        k = self.kind
+        st = lambda s: sorted(s, key=tag)  # noqa
+        for _ in range(6):
+            if k == "D":
+                ns = st(key[0]) + st(key[1])
+                if len(ns) < 3 and r.random() < 0.7:
+                    f = {"e": [st(key[1]), st(key[0])]}  # the reverse direction
+                else:
+                    how = r.random()
+                    if how < 0.6:
+                        cut = r.randint(1, len(ns) - 1)  # same sorted nodes, another boundary
+                    else:
+                        ns = r.sample(ns, len(ns))
+                        cut = r.randint(1, len(ns) - 1)
+                    f = {"e": [ns[:cut], ns[cut:]]}
+            else:
+                nodes = st(model.knodes(key))
+                how = r.random()
+                extra = [n for n in self.U if n not in nodes]
+                if how < 0.4 and len(nodes) > 2:
+                    nodes = [n for n in nodes if n != r.choice(nodes)]
+                elif how < 0.8 and extra and len(nodes) < min(self.cfg["max_size"], len(self.U)):
+                    nodes = nodes + [r.choice(extra)]
+                elif k == "H":
+                    continue
+                f = {"e": r.sample(nodes, len(nodes))}
+                if k == "T":
+                    f["t"] = key[0] if how < 0.8 else key[0] + r.choice([1, 2])
+                if k == "M":
+                    f["layer"] = key[1] if how < 0.8 else r.choice(self.cfg["layers"])
+            try:
+                if model.key(f) not in model.edges:
+                    return f, w0
+            except Ambiguous:
+                pass
+        return None, None
+
     def present_frag(self, model):
         ks = self.keys(model)
         if not ks:
@@ -157,6 +206,9 @@ class Gen:
                 f = self.present_frag(model)
             elif x < 0.40 and self.removed:
                 f = dict(r.choice(self.removed))
+            rel_w = None
+            if f is None and x > 0.8:
+                f, rel_w = self.related_frag(model)
             if f is None:
                 f = self.rand_frag()
             op = {"op": name, "form": self.form(), **f}
@@ -169,7 +221,9 @@ class Gen:
                 if md is not None:
                     op["md"] = md
             if model.weighted:
-                if r.random() < 0.8:
+                if rel_w is not None and r.random() < 0.6:
+                    op["w"] = rel_w  # the relative carries exactly the weight of the hyperedge it was derived from
+                elif r.random() < 0.8:
                     op["w"] = self.weight()
             elif r.random() < 0.2:
                 op["w"] = 1
@@ -487,7 +541,7 @@ class Gen:
 
 
 def gen_config(rng, kind, tier, extra_ops=(), extra_weight=1.0):
-    lab = rng.choice(["small", "small", "big", "str", "numstr"])
+    lab = rng.choice(["small", "small", "big", "str", "numstr", "hashy"])
     usize = rng.randint(3, 7)
     large = rng.random() < (0.06 if tier == "quick" else 0.12)
     if large:
